@@ -30,7 +30,7 @@ pub fn run(tier: &str) -> Result<Report, String> {
             let probe = NetCtx::new(b.clone(), label_families(b, 1)[0].1.clone(), "probe");
             fs.extend(templates(&probe.user, true, if tier == "quick" { 2 } else { 6 }).into_iter().filter(|f| f.uses_wild_or_dom()));
             fs.extend(crate::formulas::restricted_scope_duplicates(&probe.user));
-            fs.extend(crate::formulas::wildcard_count_texts().iter().map(|t| crate::formulas::f(t, &probe.user)));
+            fs.extend(crate::formulas::wildcard_count_texts().iter().map(|t| crate::formulas::f(&crate::formulas::with_props_of(t, &probe.user), &probe.user)));
             if b.n >= 2 {
                 let pool = collision_alphabet(&probe.user);
                 let pool: Vec<_> = pool.into_iter().take(if tier == "quick" { 14 } else { 28 }).collect();
